@@ -52,7 +52,9 @@ def run_scenario(chk, sc, cfgseed, how, field, axes, scale, ext=6, ext_cut=False
     from amr_kitchen.pestle import volume_integral
     rng = random.Random(cfgseed)
     cfg_ = gamma.Config.draw(rng, ndims=3, payload="tame", numfmt="g6" if cfgseed % 4 == 0 else "repr")
-    lat = lattice.Lattice(sc["mesh"], sc["n1"], sc["n2"], axes=axes, ext0=ext * scale, ext_cut=ext_cut, scale=scale)
+    # one configuration in seven: the same cells in HUNDREDS of boxes (every box cut into tiles of 2 or 4 cells)
+    tile = (2 if scale <= 2 else 4) if cfgseed % 7 == 3 else None
+    lat = lattice.Lattice(sc["mesh"], sc["n1"], sc["n2"], axes=axes, ext0=ext * scale, ext_cut=ext_cut, scale=scale, tile=tile)
     special = {2: lambda lv, shape: np.ones(shape),
                3: lambda lv, shape: np.random.default_rng(cfgseed + lv).uniform(0.0, 1.0, shape)}
     flds = lattice.Fields(lat, cfgseed, payload="tame", special=special)
@@ -79,6 +81,8 @@ def run_scenario(chk, sc, cfgseed, how, field, axes, scale, ext=6, ext_cut=False
     os.makedirs(d)
     src = os.path.join(d, "plt")
     gamma.write_plotfile(src, ap, cfg_, values=flds.values)
+    if cfgseed % 5 == 2:
+        gamma.add_stale_files(src, ap, cfg_, cfgseed)       # left-overs of an earlier, larger plotfile in the same directory
     before = alpha.tree_digest(src)
     src_typed = spell.of(src, cfgseed)[0]
     # expected: sum over exactly the cells the requirement counts
